@@ -2,7 +2,7 @@
    a frame whose PHYSICAL state (column data, row index) was dumped through the hook, with the dumped result.
    Every check has two independent parts: the property oracle at table level (code 2) and the exact
    comparison with the L0 model (code 1). *)
-From QF Require Import Base.Prelude Base.CaseLib Model.Frame Model.Filter Model.FilterSpec Model.Ops Model.TableSpec.
+From QF Require Import Base.Prelude Base.CaseLib Model.Frame Model.Filter Model.FilterSpec Model.Ops Model.TableSpec Model.Eval.
 Local Open Scope N_scope.
 
 Definition col_obs_eqb (a b : coldata) : bool :=
@@ -49,7 +49,8 @@ Inductive frame_case :=
 | FFilteredApply (input : frame) (mt : matcher_table) (ut : upper_table) (c : clause) (is : list instr) (out : frame)
 | FRowNums (input : frame) (name : bytes) (out : frame)
 | FEquals (f g : frame) (obs : bool)
-| FNew (data : list (bytes * newdata)) (order : list bytes) (enums : list (bytes * list bytes)) (out : frame).
+| FNew (data : list (bytes * newdata)) (order : list bytes) (enums : list (bytes * list bytes)) (out : frame)
+| FEval (input : frame) (ut : upper_table) (cx : ctx) (dst : bytes) (call : earg) (out : frame).
 
 Definition first_nonzero (a b : N) : N := if a =? 0 then b else a.
 
@@ -98,6 +99,77 @@ Definition new_oracle (data : list (bytes * newdata)) (order : list bytes) (enum
           if cols_ok && wf_frame out then 0 else 2
     | _ => 2
     end.
+
+(* ------------------------------------------------------------------ Eval: the value denoted by the tree *)
+
+Definition cell_ctype (c : cell) : ctype :=
+  match c with CInt _ => TInt | CFloat _ => TFloat | CBool _ => TBool | CStr _ => TString | CEnum _ => TEnum end.
+
+(* None = invalid (Err expected); Some None = open; Some (Some (type, cells)) = the column the expression denotes *)
+Definition dres := option (option (ctype * list cell)).
+
+Definition d_unary (cx : ctx) (op : bytes) (a : dres) : dres :=
+  match a with
+  | Some (Some (ty, cells)) =>
+      match get_func cx (ftype_of ty) false op with
+      | Some (F1 tin tout tbl) =>
+          if ctype_eqb (ftype_of ty) tin && negb (ctype_eqb tout TEnum) then
+            match omap (tbl1 tbl) cells with Ok out => Some (Some (tout, out)) | _ => Some None end
+          else None
+      | Some _ => Some None
+      | None => None
+      end
+  | other => other
+  end.
+
+Definition d_binary (cx : ctx) (op : bytes) (a b : dres) : dres :=
+  match a, b with
+  | Some (Some (ty1, c1)), Some (Some (ty2, c2)) =>
+      match get_func cx (ftype_of ty1) true op with
+      | Some (F2 ty tbl) =>
+          if ctype_eqb ty1 ty2 && ctype_eqb (ftype_of ty1) ty then
+            match omap (fun xy => tbl2 tbl (fst xy) (snd xy)) (combine c1 c2) with
+            | Ok out => Some (Some (ty, out)) | _ => Some None end
+          else None
+      | Some _ => Some None
+      | None => None
+      end
+  | None, _ | _, None => None
+  | _, _ => Some None
+  end.
+
+Fixpoint denote (cx : ctx) (t : table) (e : expr) : dres :=
+  let col n := match tcolumn t n with Some r => Some (Some r) | None => None end in
+  let const v := Some (Some (cell_ctype v, map (fun _ => v) (trows t))) in
+  match e with
+  | XCol n => col n
+  | XConst v => const v
+  | XUnary op c => d_unary cx op (col c)
+  | XColConst op c v constFirst =>
+      (* operands in the order written *)
+      if constFirst then d_binary cx op (const v) (col c) else d_binary cx op (col c) (const v)
+  | XColCol op c1 c2 => d_binary cx op (col c1) (col c2)
+  | XExpr1 op e1 => d_unary cx op (denote cx t e1)
+  | XExpr2 op l r => d_binary cx op (denote cx t l) (denote cx t r)
+  | XError => None
+  end.
+
+Definition eval_oracle (f : frame) (cx : ctx) (dst : bytes) (e : expr) (out : frame) : N :=
+  if ferr f then expect_err out
+  else match abs f with
+       | Ok t =>
+           match denote cx t e with
+           | None => expect_err out
+           | Some None => 0
+           | Some (Some (ty, cells)) =>
+               match e with
+               | XCol src => if bytes_eqb src dst then expect_table t out
+                             else if check_name dst then expect_table (tset_col t dst ty cells) out else expect_err out
+               | _ => if check_name dst then expect_table (tset_col t dst ty cells) out else expect_err out
+               end
+           end
+       | _ => 3
+       end.
 
 Definition check_frame_case (c : frame_case) : N :=
   match c with
@@ -216,4 +288,7 @@ Definition check_frame_case (c : frame_case) : N :=
       first_nonzero oracle (match equals f g with Ok b => if Bool.eqb b obs then 0 else 1 | _ => 3 end)
   | FNew data order enums out =>
       first_nonzero (new_oracle data order enums out) (model_code (new_frame data order enums) out)
+  | FEval f ut cx dst call out =>
+      let e := new_expr call in
+      first_nonzero (eval_oracle f cx dst e out) (model_code (eval ut cx f dst e) out)
   end.
